@@ -454,6 +454,11 @@ fn boxes(ctx: &Ctx) -> Vec<SubBox> {
                 }
             }
         }
+        // longer sequences on coarse lattices: prefixes that are pruned and re-created
+        // at a later step need T >= 4 and a narrow beam
+        for (t, l, den) in [(4usize, 2usize, 4u32), (4, 3, 3), (5, 2, 3), (5, 3, 2), (6, 2, 2)] {
+            v.push(SubBox { t, l, den, widths: widths.clone(), n_bests: vec![1u32, 2, 3, 5, 8, 13] });
+        }
     } else {
         let mut widths: Vec<u32> = (1..=20).collect();
         widths.extend([24, 32, 64]);
